@@ -13,8 +13,10 @@ def _freeze(o):
     if isinstance(o, dict):
         return tuple(sorted((k, _freeze(v)) for k, v in o.items()))
     if isinstance(o, (list, tuple)):
-        return tuple(_freeze(x) for x in o)
-    return o
+        return (type(o).__name__,) + tuple(_freeze(x) for x in o)
+    # leaves by type and printed form: values that compare equal but are not the same setting (True / 1, two aware
+    # datetimes of one instant in different zones) must not share a parser
+    return (type(o).__name__, repr(o), str(getattr(o, "tzinfo", "")))
 
 
 def P(languages=None, locales=None, region=None, settings=None, use_given_order=False, reuse=True):
